@@ -33,6 +33,22 @@ type Case struct {
 	Tree sreg.Tree `json:"tree"`
 	Bars gen.Bars  `json:"bars"`
 	M    int       `json:"m"` // prefix length for the alignment check
+	// Zone: the snapshots are dated at local midnight in a zone Zone quarter hours east of UTC
+	// (what time.ParseInLocation or a database driver yields); 0 = UTC, as the CSV reader gives.
+	Zone int `json:"zone,omitempty"`
+}
+
+// snapshots dates the bars in the case's zone.
+func (c Case) snapshots(b gen.Bars) []*asset.Snapshot {
+	sn := stub.Snapshots(b)
+	if c.Zone != 0 {
+		loc := time.FixedZone("verif", c.Zone*900)
+		for _, s := range sn {
+			y, m, d := s.Date.Date()
+			s.Date = time.Date(y, m, d, 0, 0, 0, 0, loc)
+		}
+	}
+	return sn
 }
 
 // columnChan reaches the unexported values channel of a report column.
@@ -120,7 +136,7 @@ var addRow = regexp.MustCompile(`(?s)data\.addRow\(\[(.*?)\]\);`)
 func check(c Case) engine.Outcome {
 	var o engine.Outcome
 	n := c.Bars.Len()
-	sn := stub.Snapshots(c.Bars)
+	sn := c.snapshots(c.Bars)
 	s := c.Tree.Build()
 	tb := readReport(s, sn)
 	if tb.err != "" {
@@ -182,9 +198,13 @@ func check(c Case) engine.Outcome {
 		return []<-chan float64{strategy.Outcome(cs[0], helper.SliceToChan(acts))}
 	})
 	annotations := 0
+	indexOf := map[int64]int{}
+	for i, x := range sn {
+		indexOf[x.Date.Unix()] = i
+	}
 	for r, dt := range tb.dates {
-		i := int(dt.Sub(stub.Day0).Hours() / 24)
-		if i < 0 || i >= n || !sn[i].Date.Equal(dt) {
+		i, isSnap := indexOf[dt.Unix()]
+		if !isSnap || !sn[i].Date.Equal(dt) {
 			o.Failf("%s: date row %d is %v, not a snapshot date", c.Tree, r, dt)
 			return o
 		}
@@ -284,7 +304,7 @@ func check(c Case) engine.Outcome {
 			}
 			pb.High[last] = math.Max(pb.High[last], pb.Close[last])*2 + 1
 			pb.Volume[last] = pb.Volume[last]*3 + 7
-			pt := readReport(c.Tree.Build(), stub.Snapshots(pb))
+			pt := readReport(c.Tree.Build(), c.snapshots(pb))
 			if pt.err != "" {
 				perturbed = nil
 				break
@@ -323,7 +343,7 @@ func check(c Case) engine.Outcome {
 		}
 	}
 	// 5. thorough: the rendered HTML agrees with the channel contents row by row
-	if engine.Thorough() && len(mism) == 0 {
+	if (engine.Thorough() || n%3 == 0 || c.Zone != 0) && len(mism) == 0 {
 		var buf bytes.Buffer
 		rep := c.Tree.Build().Report(helper.SliceToChan(sn))
 		if err := rep.WriteToWriter(&buf); err != nil {
@@ -345,6 +365,11 @@ func check(c Case) engine.Outcome {
 			}
 			if len(cells) != len(tb.cols)+1 {
 				o.Failf("%s: rendered row %d has %d cells, want %d", c.Tree, r, len(cells), len(tb.cols)+1)
+				return o
+			}
+			// the row is labelled with the calendar day of its snapshot
+			if want := fmt.Sprintf("new Date(%q)", tb.dates[r].Format(helper.DefaultReportDateFormat)); cells[0] != want {
+				o.Failf("%s: rendered row %d is labelled %s, its snapshot is dated %v, i.e. %s", c.Tree, r, cells[0], tb.dates[r], want)
 				return o
 			}
 			for ci := range tb.cols {
@@ -380,7 +405,11 @@ func check(c Case) engine.Outcome {
 func genCase(t *rapid.T, tr sreg.Tree) Case {
 	w := tr.MaxWarm()
 	n := rapid.IntRange(w+1, w+60).Draw(t, "n")
-	return Case{Tree: tr, Bars: gen.GenBars(t, n), M: rapid.IntRange(1, n).Draw(t, "m")}
+	c := Case{Tree: tr, Bars: gen.GenBars(t, n), M: rapid.IntRange(1, n).Draw(t, "m")}
+	if rapid.IntRange(0, 5).Draw(t, "zoned") == 0 {
+		c.Zone = rapid.SampledFrom([]int{-48, -20, -1, 1, 4, 12, 22, 36, 56}).Draw(t, "zone")
+	}
+	return c
 }
 
 func baseProp(st sreg.Strat) engine.AnyProp {
